@@ -660,6 +660,65 @@ def form_end_tag(ctx):
                 {"scenario": label}, detail={"scenario": label, "stack": got_stack, "errors": errors})
 
 
+def select_option_handlers(ctx):
+    """C01.28: the option / optgroup steps of "in select": a start tag option pops a current option; a start tag optgroup pops
+    a current option and then a current optgroup; an end tag option pops a current option, otherwise parse error; an end tag
+    optgroup pops a current option *only if the node before it is an optgroup*, then pops a current optgroup, otherwise parse
+    error.  The four handlers are run from their source (sa/classeval.py) on model stacks."""
+    from ..classeval import ClassEval, Record
+    r = ctx.r
+    r.rule("C01.28", "in select: the option / optgroup start and end tag handlers leave the standard's stack", floor=12)
+    cls = ctx.repo.cls(PARSER_REL, "InSelectPhase")
+    mod = ctx.repo.module(PARSER_REL)
+    HTML = "http://www.w3.org/1999/xhtml"
+
+    def el(name):
+        return Record(tag=name, name=name, namespace=HTML, nameTuple=(HTML, name), attributes={})
+    base = ["html", "body", "select"]
+    cases = [
+        ("startTagOption", 3, "option", ["option"], ["NEW"], None),
+        ("startTagOption", 3, "option", ["optgroup", "option"], ["optgroup", "NEW"], None),
+        ("startTagOption", 3, "option", ["optgroup"], ["optgroup", "NEW"], None),
+        ("startTagOptgroup", 3, "optgroup", ["option"], ["NEW"], None),
+        ("startTagOptgroup", 3, "optgroup", ["optgroup", "option"], ["NEW"], None),
+        ("startTagOptgroup", 3, "optgroup", ["optgroup"], ["NEW"], None),
+        ("startTagOptgroup", 3, "optgroup", [], ["NEW"], None),
+        ("endTagOption", 4, "option", ["option"], [], False),
+        ("endTagOption", 4, "option", ["optgroup", "option"], ["optgroup"], False),
+        ("endTagOption", 4, "option", ["optgroup"], ["optgroup"], True),
+        ("endTagOptgroup", 4, "optgroup", ["optgroup", "option"], [], False),
+        ("endTagOptgroup", 4, "optgroup", ["optgroup"], [], False),
+        ("endTagOptgroup", 4, "optgroup", ["option"], ["option"], True),
+        ("endTagOptgroup", 4, "optgroup", [], [], True),
+    ]
+    for meth, ttype, tname, extra, want_extra, want_err in cases:
+        f = cls.find_method(meth)
+        key = "in-select::%s::%s" % (meth, "+".join(extra) or "select")
+        if f is None:
+            r.idiom("C01.28", False, key, PARSER_REL, "InSelectPhase.%s not found" % meth)
+            continue
+        stack = [el(x) for x in base + extra]
+        errors = []
+
+        def insert(tok, stack=stack):
+            stack.append(Record(tag="NEW", name=tok["name"], namespace=HTML, nameTuple=(HTML, tok["name"]), attributes={}))
+        tree = Record(openElements=stack, insertElement=insert, defaultNamespace=HTML)
+        parser = Record(parseError=lambda *a, **k: errors.append(a[0] if a else None))
+        try:
+            ClassEval(ctx.ce, mod, cls, {"tree": tree, "parser": parser}, repo=ctx.repo).call(meth, [{"type": ttype, "name": tname, "namespace": HTML, "data": {}}])
+        except AnalysisError as e:
+            r.idiom("C01.28", False, key, f.where, "%s is not evaluable (%s)" % (meth, str(e)[:90]))
+            continue
+        got = [x.tag for x in stack]
+        want = base + want_extra
+        ok = got == want and (want_err is None or bool(errors) == want_err)
+        r.check("C01.28", ok, key, f.where,
+                "in select, %s with the stack %s leaves %s%s; the standard leaves %s%s (`<select><option>a</optgroup>b` keeps b in the option)" % (
+                    meth, base + extra, got, " and reports %s" % errors if errors else "", want,
+                    "" if want_err is None else (" and reports a parse error" if want_err else " without a parse error")),
+                {"handler": meth, "stack": extra}, detail={"handler": meth, "stack": base + extra, "result": got, "errors": errors})
+
+
 def frameset_text(ctx):
     """C01.26: "in frameset", "after frameset", "after after frameset": a white-space character is inserted (resp. handled by the
     in-body rules), any other character is a parse error and ignored -- *per character*.  The tokenizer hands over runs
@@ -677,9 +736,11 @@ def frameset_text(ctx):
             r.idiom("C01.26", False, "frameset-text::%s" % key, PARSER_REL, "no processCharacters for %s" % key)
             continue
         inserted = []
+        via_body = []
         tree = Record(insertText=lambda data, parent=None: inserted.append(data), openElements=[Record(name="html"), Record(name="frameset")],
-                      reconstructActiveFormattingElements=lambda: None)
-        body_model = Record(processSpaceCharacters=lambda tok: inserted.append(tok["data"]), processCharacters=lambda tok: inserted.append(tok["data"]))
+                      reconstructActiveFormattingElements=lambda: via_body.append("reconstruct"))
+        body_model = Record(processSpaceCharacters=lambda tok: (inserted.append(tok["data"]), via_body.append("in body"))[0],
+                            processCharacters=lambda tok: (inserted.append(tok["data"]), via_body.append("in body"))[0])
         parser = Record(parseError=lambda *a: None, phases={"inBody": body_model})
         try:
             ClassEval(ctx.ce, mod, cls, {"tree": tree, "parser": parser}, repo=ctx.repo).call("processCharacters", [{"type": 1, "data": "a b"}])
@@ -690,6 +751,13 @@ def frameset_text(ctx):
         r.check("C01.26", got == " ", "frameset-text::%s" % key, f.where,
                 "%s.processCharacters on the token `a b` inserts %r; the standard inserts the white-space character and drops the two letters "
                 "(`<frameset>a b</frameset>` has the text ' ' in the frameset)" % (cls.name, got), {"mode": key}, detail={"mode": key, "inserted": got})
+        if key != "afterAfterFrameset":
+            # "in frameset" / "after frameset": *insert the character* -- not "process using the rules for in body", which would
+            # reconstruct the active formatting elements (an open <b> before the frameset would be re-created under html)
+            r.check("C01.26", not via_body, "frameset-space-inserted-directly::%s" % key, f.where,
+                    "%s.processCharacters hands the white space to the in-body rules / reconstructs the active formatting elements (%s); the "
+                    "standard inserts the character directly in this mode: `<b><frameset></frameset>x y` would get a second b element as a "
+                    "child of html" % (cls.name, sorted(set(via_body))), {"mode": key}, detail={"mode": key})
 
 
 def noahs_ark(ctx) -> bool:
@@ -1928,6 +1996,7 @@ def run(ctx):
     table_text_condition(ctx)
     frameset_text(ctx)
     form_end_tag(ctx)
+    select_option_handlers(ctx)
     from . import modes
     modes.run(ctx, "C01.12")
     standard_tables(ctx)
@@ -1945,6 +2014,9 @@ def mutants():
           "        node = self.tree.formPointer\n        self.tree.formPointer = None\n        if node is None or not self.tree.elementInScope(node):",
           "        node = self.tree.formPointer\n        if node is None or not self.tree.elementInScope(node):", "C01.27"),
         T("form-end-pops-current-node", "html5parser.py", "            self.tree.openElements.remove(node)\n\n    def endTagListItem", "            self.tree.openElements.pop()\n\n    def endTagListItem", "C01.27"),
+        T("optgroup-end-pops-any-option", "html5parser.py",
+          "        if (self.tree.openElements[-1].name == \"option\" and\n                self.tree.openElements[-2].name == \"optgroup\"):\n            self.tree.openElements.pop()",
+          "        if self.tree.openElements[-1].name == \"option\":\n            self.tree.openElements.pop()", "C01.28"),
         T("table-text-any-current-node", "html5parser.py", '        return self.tree.openElements[-1].name in ("table", "tbody", "tfoot", "thead", "tr")',
           '        return True', "C01.24"),
         T("table-text-not-for-tr", "html5parser.py", '        return self.tree.openElements[-1].name in ("table", "tbody", "tfoot", "thead", "tr")',
